@@ -861,3 +861,177 @@ def r6_10(run):
 
 RULES = [("R6.1", r6_1), ("R6.2", r6_2), ("R6.3", r6_3), ("R6.4", r6_4), ("R6.5", r6_5), ("R6.6", r6_6), ("R6.7", r6_7), ("R6.8", r6_8),
          ("R6.9", r6_9), ("R6.10", r6_10)]
+
+
+SET_FUNCS = ("numpy.isin", "numpy.in1d", "numpy.intersect1d", "numpy.setdiff1d", "numpy.setxor1d", "numpy.union1d")
+
+
+def _unique_by_construction(t):
+    from ..arrnf import base_of
+    t = base_of(t)
+    if not isinstance(t, tuple) or not t:
+        return False
+    if t[0] == "proj" and t[2] == 0:
+        t = t[1]
+    if t[0] == "call" and t[1] == ("x", "numpy.where") and len(t[2]) == 1:
+        return True             # positions of a mask (np.flatnonzero / np.nonzero / one-argument np.where in normal form)
+    if t[0] == "call" and t[1] in (("x", "numpy.unique"), ("x", "numpy.arange"), ("x", "numpy.argsort")):
+        return True
+    if t[0] == "call" and t[1] in (("x", "numpy.intersect1d"), ("x", "numpy.setdiff1d"), ("x", "numpy.union1d"), ("x", "numpy.setxor1d")):
+        return True
+    return False
+
+
+def assume_unique_sites(ix, functions=None):
+    """[(function, node, term, ok)]: numpy set operations called with assume_unique (anything but the literal False)"""
+    from ..arrnf import ANF, C
+    out = []
+    for f in (functions if functions is not None else ix.all_functions()):
+        if functions is None and (".test." in f.module or not any(isinstance(k, ast.keyword) and k.arg == "assume_unique" for k in ast.walk(f.raw_node))):
+            continue
+        r = ANF(ix, f, strip=False).run()
+        seen = set()
+        for e in r.events:
+            for t in (getattr(e, "term", None), getattr(e, "value", None)):
+                if not isinstance(t, tuple):
+                    continue
+                from ..arrnf import walk
+                for x in walk(t):
+                    if isinstance(x, tuple) and x and x[0] == "call" and x[1][0] == "x" and x[1][1] in SET_FUNCS and id(x) not in seen:
+                        au = dict(x[3]).get("assume_unique")
+                        if au is None and len(x[2]) > 2:
+                            au = x[2][2]
+                        if au is None or au == C(False):
+                            continue
+                        seen.add(id(x))
+                        out.append((f, e.node, x, all(_unique_by_construction(a) for a in x[2][:2])))
+    return out
+
+
+def r6_11(run):
+    """which rows count as "connected", "in the table", "to be dropped" must not depend on the row order: np.isin and the numpy set
+    operations are order independent -- unless `assume_unique=True` is passed, which skips the de-duplication and silently gives wrong
+    members (which ones depends on the order of the rows) as soon as an argument repeats a value, e.g. two sinks at one junction.
+    Every such call has both arguments unique by construction (np.unique output, positions of a mask, np.arange).  No such call exists
+    in the package today; the rule keeps it that way and proves on every run that it recognises the form."""
+    from ..arrnf import show as tshow
+    ix = run.index
+    sites = assume_unique_sites(ix)
+    for f, node, t, ok in sites:
+        run.analysed(f)
+        run.ob("%s|%s|assume-unique-arguments-are-unique" % (f.short, tshow(t)[:40]), ok,
+               "both arguments of a set operation called with assume_unique are unique by construction", run.where(f, node), detail=tshow(t)[:160])
+    # the form is recognised (positive example, analysed by the same code on every run)
+    from ..index import Index
+    from ..source import SourceProvider
+    probe_src = ("import numpy as np\n"
+                 "def probe_bad(a, b):\n    return np.isin(a, b, assume_unique=True)\n"
+                 "def probe_good(a, b):\n    return np.isin(np.unique(a), np.flatnonzero(b), assume_unique=True)\n")
+    sp = SourceProvider(overrides={"pandapipes.idx_node": run.index.sp.text("pandapipes.idx_node") + "\n" + probe_src}) \
+        if hasattr(run.index, "sp") else None
+    if sp is None:
+        raise AnalysisError("source provider of the index not reachable for the positive example of R6.11")
+    pix = Index(sp)
+    probes = assume_unique_sites(pix, [pix.func("pandapipes.idx_node.probe_bad"), pix.func("pandapipes.idx_node.probe_good")])
+    got = sorted((f.name, ok) for f, _n, _t, ok in probes)
+    run.ob("assume-unique|form-recognised", got == [("probe_bad", False), ("probe_good", True)],
+           "the positive example is recognised: np.isin(a, b, assume_unique=True) is reported, the np.unique / np.flatnonzero variant is accepted",
+           "ppsa/rules/c06.py", detail=str(got))
+    run.stat("set_operations_with_assume_unique", len(sites))
+    run.floor(1)
+
+
+RULES.append(("R6.11", r6_11))
+
+
+PIT_FILL_HOOKS = ("create_pit_node_entries", "create_pit_branch_entries", "create_component_array")
+
+
+def foreign_row_sites(ix):
+    """[(component class, hook, defining function, table name, "branch"|"node", node)]: a pit-filling hook of one component that
+    takes the row window of ANOTHER component's table (get_lookup(net, kind, "from_to")["<table>"] with a constant table name that
+    is not the component's own)"""
+    from ..arrnf import ANF, walk
+    out, seen = [], set()
+    for c in ix.components():
+        own = ix.method_const(c, "table_name")
+        for h in PIT_FILL_HOOKS:
+            f = ix.lookup_method(c, h)
+            if f is None or f.cls.name == "Component":
+                continue
+            try:
+                r = ANF(ix, f, strip=False).run()
+            except AnalysisError:
+                continue
+            for e in r.events:
+                for t in (getattr(e, "term", None), getattr(e, "value", None), getattr(e, "base", None)) + tuple(getattr(e, "index", None) or ()):
+                    if not isinstance(t, tuple):
+                        continue
+                    for x in walk(t):
+                        if isinstance(x, tuple) and x and x[0] == "idx" and len(x[2]) == 1 and x[2][0][0] == "c" and isinstance(x[2][0][1], str) \
+                                and x[1][0] == "call" and x[1][1][0] == "f" and x[1][1][1].endswith(".get_lookup") and len(x[1][2]) == 3 \
+                                and x[1][2][2] == ("c", "from_to") and x[1][2][1][0] == "c":
+                            tbl, kind = x[2][0][1], x[1][2][1][1]
+                            if tbl != own and not tbl.endswith("_nodes") and (c.name, h, tbl) not in seen:
+                                seen.add((c.name, h, tbl))
+                                out.append((c, h, f, tbl, kind, e.node))
+    return out
+
+
+def _fill_order_last(ix):
+    """the table names initialize_pit enters last: its component loop runs over sorted(net['component_list'], key=lambda c: <test>)
+    with <test> = c.table_name() == "T" / in ("T", ...) (False sorts before True, the sort is stable); else the empty set.  Also
+    returns the loop node."""
+    f = ix.func("pandapipes.pf.pipeflow_setup.initialize_pit")
+    loops = [n for n in ast.walk(f.raw_node) if isinstance(n, ast.For)
+             and any(isinstance(c, ast.Call) and isinstance(c.func, ast.Attribute) and c.func.attr in PIT_FILL_HOOKS for c in ast.walk(n))]
+    if len(loops) != 1:
+        raise AnalysisError("initialize_pit: expected exactly one loop that calls the pit-filling hooks, found %d" % len(loops))
+    loop = loops[0]
+    it = loop.iter
+    if isinstance(it, ast.Name):
+        asg = [a for a in ast.walk(f.raw_node) if isinstance(a, ast.Assign) and len(a.targets) == 1 and isinstance(a.targets[0], ast.Name)
+               and a.targets[0].id == it.id]
+        if len(asg) == 1:
+            it = asg[0].value
+    last = set()
+    if isinstance(it, ast.Call) and isinstance(it.func, ast.Name) and it.func.id == "sorted" and it.args and "component_list" in U(it.args[0]):
+        key = [k.value for k in it.keywords if k.arg == "key"]
+        if len(key) == 1 and isinstance(key[0], ast.Lambda) and len(key[0].args.args) == 1:
+            v, body = key[0].args.args[0].arg, key[0].body
+            if isinstance(body, ast.Compare) and len(body.ops) == 1 and U(body.left) == "%s.table_name()" % v:
+                rhs = body.comparators[0]
+                if isinstance(body.ops[0], ast.Eq) and const_str(rhs):
+                    last = {const_str(rhs)}
+                elif isinstance(body.ops[0], ast.In) and isinstance(rhs, (ast.Tuple, ast.List, ast.Set)) and all(const_str(x) for x in rhs.elts):
+                    last = {const_str(x) for x in rhs.elts}
+    elif not ("component_list" in U(it)):
+        raise AnalysisError("initialize_pit: the hook loop does not run over the component list (%s)" % U(it)[:60])
+    return last, loop, f
+
+
+def r6_12(run):
+    """the order in which elements are created decides the order of net.component_list whenever the components are added on demand
+    (sector=Sector.NONE).  Each pit-filling hook writes its own rows, so the order does not matter -- except where a hook takes the
+    rows of ANOTHER component's table (Valve.create_pit_branch_entries re-wires the pipe rows a pipe valve sits on): such a hook needs
+    the other rows to be filled already, and must not be followed by the hook that fills them.  For every such (component, foreign
+    table) pair initialize_pit enters the component after all others (stable sort key on its table name) and the foreign table's
+    component is not deferred itself."""
+    ix = run.index
+    sites = foreign_row_sites(ix)
+    last, loop, f = _fill_order_last(ix)
+    run.analysed(f)
+    for c, h, g_, tbl, kind, node in sites:
+        own = ix.method_const(c, "table_name")
+        run.analysed(g_)
+        run.ob("%s.%s|rows-of-%s|filled-before" % (c.name, h, tbl), own in last and tbl not in last,
+               "%s.%s works on the %s rows of the %s pit: initialize_pit enters %r after all other components, whatever the order of "
+               "net.component_list" % (c.name, h, tbl, kind, own), run.where(g_, node),
+               detail="entered last: %s" % (sorted(last) or "nothing (component_list order as created)"))
+    run.stat("hooks_working_on_foreign_rows", len(sites))
+    run.ob("pit-filling-hooks-scanned", len(ix.components()) >= 12, "pit-filling hooks of %d components scanned for foreign row windows" % len(ix.components()),
+           "component_models")
+    run.floor(2)
+
+
+RULES.append(("R6.12", r6_12))
